@@ -1,3 +1,5 @@
+import NrDaemon.Props.Reviewed
+import NrDaemon.Gen.Skeleton
 import NrDaemon.Model.Trigger
 import NrDaemon.Gen.SwapTable
 import NrDaemon.Props.Tied
@@ -794,3 +796,9 @@ theorem C12_zero_limit_never_sent_combined (s : PState) (runId : String) (run : 
 /-- a reservoir of capacity zero holds nothing after any sequence of offers, merges and hand-backs -/
 theorem C12_zero_capacity_reservoir_empty (ops : List ResOp) : (runRes 0 ops).size = 0 :=
   Nat.le_zero.mp (C05_reservoir_bound 0 ops)
+
+
+/-! ## Ties to the current source: the functions transcribed by the model have not changed since they were reviewed (`Props/Reviewed.lean`) -/
+
+/-- **C12 (tie).**  `harvestByType`: every per-category branch is guarded by its own limit being non-zero. -/
+theorem C12_harvest_by_type_source_tied : Gen.Skeleton.harvestByType = Reviewed.harvestByType := rfl
